@@ -48,9 +48,16 @@ def spec_fns():
             fn = getattr(k, "fn", None)
             if not isinstance(fn, str):
                 continue
-            f = getattr(k, "file", None) or getattr(k, "mod", None)
-            if not isinstance(f, str):
-                f = None
+            f = None
+            for attr in ("file", "mod", "module", "path"):
+                v = getattr(k, attr, None)
+                if isinstance(v, str):
+                    f = v
+                    break
+                vf = getattr(v, "file", None) if v is not None else None
+                if isinstance(vf, str):
+                    f = vf
+                    break
             tied.setdefault(fn, []).append((f, m.name))
     return tied
 
@@ -68,21 +75,30 @@ def main():
             rows = []
             for name, line in fns:
                 hits = tied.get(name, [])
-                ok = [u for (f, u) in hits if f is None or rel.endswith(f) or f.endswith(rel) or
-                      os.path.basename(f).replace(".rs", "") in rel]
-                rows.append({"fn": name, "line": line, "tied_by": sorted(set(ok))})
+                # a spec counts only when it names THIS file (full relative path, or a module path that ends the same way);
+                # specs that carry no file are reported as name-only matches and are NOT counted as tied
+                def same(f):
+                    f = f.replace("::", "/")
+                    if not f.endswith(".rs"):
+                        f = f + ".rs"
+                    return rel.endswith(f) or f.endswith(rel) or rel.replace("/mod.rs", ".rs").endswith(f)
+                ok = [u for (f, u) in hits if f is not None and same(f)]
+                nameonly = [u for (f, u) in hits if f is None]
+                rows.append({"fn": name, "line": line, "tied_by": sorted(set(ok)), "name_only": sorted(set(nameonly))})
             files[rel] = rows
     tot = sum(len(r) for r in files.values())
     t = sum(1 for r in files.values() for x in r if x["tied_by"])
+    no = sum(1 for r in files.values() for x in r if not x["tied_by"] and x.get("name_only"))
     os.makedirs(os.path.join(V, "coverage"), exist_ok=True)
-    json.dump({"functions": tot, "tied": t, "files": files}, open(os.path.join(V, "coverage", "tie_coverage.json"), "w"), indent=1)
+    json.dump({"functions": tot, "tied": t, "name_only_not_counted": no, "files": files}, open(os.path.join(V, "coverage", "tie_coverage.json"), "w"), indent=1)
     for rel, rows in sorted(files.items()):
         if not rows:
             continue
         k = sum(1 for x in rows if x["tied_by"])
         un = [x["fn"] for x in rows if not x["tied_by"]]
         print(f"{k:4d}/{len(rows):4d}  {rel}" + ("   untied: " + ",".join(un[:14]) + (" …" if len(un) > 14 else "") if un else ""))
-    print(f"TOTAL {t}/{tot} function definitions of /repo/src are translated from source and tied to the model by a theorem")
+    print(f"TOTAL {t}/{tot} function definitions of /repo/src are translated from source (spec names the file) and tied to the model by a theorem; "
+          f"{no} more match a spec by name only (spec without file information) and are not counted")
 
 
 if __name__ == "__main__":
